@@ -79,7 +79,25 @@ class ExprParser:
         if k == "op" and v in ("+", "-", "NOT"):
             self.next()
             return {"k": "un", "op": v, "a": self.unary()}
-        return self.primary()
+        return self.postfix(self.primary())
+
+    def postfix(self, e):
+        """qualifiers: .attr  \\group  [index]"""
+        while True:
+            t = self.peek()
+            if t == ("op", "."):
+                self.next()
+                e = {"k": "dot", "a": e, "name": self.next()[1]}
+            elif t == ("op", "\\"):
+                self.next()
+                e = {"k": "group", "a": e, "name": self.next()[1]}
+            elif t == ("op", "[") and e["k"] in ("id", "dot", "group", "index", "call"):
+                self.next()
+                i = self.expr()
+                self.expect("]")
+                e = {"k": "index", "a": e, "i": i}
+            else:
+                return e
 
     def primary(self):
         k, v = self.next()
@@ -116,6 +134,15 @@ class ExprParser:
             hi = self.simple()
             self.expect("}")
             return {"k": "interval", "lo": lo, "lop": lop, "x": x, "hop": hop, "hi": hi}
+        if k == "id" and v == "query" and self.peek() == ("op", "("):
+            self.next()
+            var = self.next()[1]
+            self.expect("<*")
+            src = self.expr()
+            self.expect("|")
+            cond = self.expr()
+            self.expect(")")
+            return {"k": "query", "v": var, "src": src, "cond": cond}
         if k == "id":
             if self.peek() == ("op", "("):
                 self.next()
@@ -181,6 +208,12 @@ def norm(e):
         return ("agg", tuple(norm(a) for a in e["items"]))
     if k == "rep":
         return ("rep", norm(e["a"]), norm(e["n"]))
+    if k == "query":
+        return ("query", e["v"].lower(), norm(e["src"]), norm(e["cond"]))
+    if k in ("dot", "group"):
+        return (k, norm(e["a"]), e["name"].lower())
+    if k == "index":
+        return ("index", norm(e["a"]), norm(e["i"]))
     if k == "interval":
         # {lo lop x hop hi} and its expansion (lo lop x) AND (x hop hi) are one form (the parser desugars it)
         return norm({"k": "bin", "op": "AND", "l": {"k": "bin", "op": e["lop"], "l": e["lo"], "r": e["x"]},
